@@ -338,6 +338,16 @@ impl Context {
                 fileids.insert(fileid);
             }
         }
+        // Merging drops the tombstones of the merged files, so every older file must be merged
+        // as well. Otherwise, a value that is kept in an older file comes back once the
+        // tombstone that deleted it is gone.
+        if let Some(&max_fileid) = fileids.iter().next_back() {
+            for entry in self.stats.iter() {
+                if *entry.key() < max_fileid {
+                    fileids.insert(*entry.key());
+                }
+            }
+        }
         Ok(fileids)
     }
 }
